@@ -215,6 +215,15 @@ def _explore(ctx, oracles, max_states, record_graph, reps, root_state=None):
                 if graph is not None:
                     graph.setdefault(key, []).append((a_idx, side, tr.key2, float(reward), bool(done),
                                                       bool(info.get("success"))))
+                if tr.new_state and len(ctx.samples) < 2:
+                    ctx.samples.append({"scenario": ctx.name, "binding": ctx.binding,
+                                        "history_from_reset": ctx.history_of(key),
+                                        "state_status(compromised,reachable,discovered,access)": [list(x) for x in ms],
+                                        "action": str(action), "draw_side": side, "draw": tr.draw,
+                                        "impl": {"success": bool(info["success"]), "reward": float(reward), "done": bool(done),
+                                                 "next_status": [list(x) for x in tr.ms2]},
+                                        "model": {"success": bool(exp.success), "value": float(exp.value),
+                                                  "next_status": [list(x) for x in exp.state]}})
                 if tr.new_state:
                     if max_states is not None and len(seen) >= max_states:
                         capped = True
